@@ -1148,6 +1148,8 @@ func resolveMain(argv []string) {
 		loaderVecs := []int{0, 63}
 		if *nvec >= 64 {
 			loaderVecs = []int{0, 63, 21, 42}
+		} else if i%4 != 1 {
+			loaderVecs = nil // the sampled tier: one program in four
 		}
 		for _, b := range loaderVecs {
 			direct := execute(src2, b, 0)
